@@ -6,8 +6,6 @@ use crossterm::{cursor, execute, terminal};
 
 use super::{Read, INITIAL_BUFFER_CAPACITY, PROMPT};
 use crate::dprintln;
-#[cfg(lace_verif)]
-use crate::verif_println as println;
 use crate::{
     output::{debugger_colors, Output},
     term::{self, Key},
@@ -152,7 +150,8 @@ impl Terminal {
                 if self.is_next() && self.buffer.trim().is_empty() {
                     self.buffer.clear();
                     self.visible_cursor = 0;
-                    println!();
+                    // The prompt lives on stderr: so does its line break
+                    eprintln!();
                 } else {
                     self.update_next();
                     return true;
@@ -240,7 +239,7 @@ impl Terminal {
             }
         }
         term::disable_raw_mode();
-        println!();
+        eprintln!();
     }
 
     /// Read entire (multi-command) line from terminal.
